@@ -113,6 +113,12 @@ func deliveryFamily(es []entry, maxDev int, budget time.Duration) mc.Family {
 			}
 			deviated := false
 			src := env.NewSource(e.in.Data)
+			if seekable && sched >= 1 && sched <= 3 {
+				// the font does not start at offset 0 of the seekable source
+				junk := bytes.Repeat([]byte("junk before the font\n"), []int{0, 1, 3, 40}[sched])[:[]int{0, 1, 16, 700}[sched]]
+				src = env.NewSource(append(append([]byte{}, junk...), e.in.Data...))
+				src.Pos = len(junk)
+			}
 			var trace []string
 			src.Decide = func(call, want, remaining int) (int, bool) {
 				var n int
